@@ -326,6 +326,10 @@ def grid_strings(dt):
             out.append(pre + '120000' + frac)
             out.append(pre + '120000' + frac + '+0100')
             out.append(pre + '1200' + frac)
+        # every fraction of one to four digits (a float-based conversion mis-rounds about one in a hundred of them)
+        for nd in (1, 2, 3, 4):
+            for f in range(10 ** nd):
+                out.append(pre + '235959.' + ('%0' + str(nd) + 'd') % f)
         # offsets
         bodies = ['12', '1200', '120000.5'] if dt == 'TM' else ['2020', '20200101', '202001011200', '20200101120000.25']
         for sign in '+-':
